@@ -33,7 +33,7 @@ func familyByName(name string) *family {
 }
 
 func init() {
-	families = []*family{famBytes, famBytesEdge, famTokens, famTokensEdge, famRepeat, famPadded, famBytes6}
+	families = []*family{famBytes, famBytesEdge, famTokens, famTokensEdge, famRepeat, famDeepTable, famPadded, famBytes6}
 }
 
 // ---------------------------------------------------------------------------------------------
@@ -326,6 +326,38 @@ var famRepeat = &family{
 			for _, in := range r.bothOn {
 				r.timeRatio("c-repeat", i, 0, in, desc, func(size int) string { return o.build(variant, o.maxRepeat(variant, size)) })
 			}
+		}
+	},
+}
+
+// Deep nesting on an operator table with many priority levels. Kept apart from c-repeat because
+// its maximum cases kill the process on the current tree (finding F04b), and every death costs the
+// shard three process runs.
+var deepOpeners = []opener{{"(", "1", ")"}, {"[", "1", "]"}}
+
+// decodeDeep: i = (count index * 2 + variant index) * len(deepOpeners) + opener; counts 10^4, max;
+// variants 0 (open^n) and 2 (balanced).
+func decodeDeep(i int64) (o opener, variant, n int) {
+	o = deepOpeners[int(i%int64(len(deepOpeners)))]
+	i /= int64(len(deepOpeners))
+	variant = []int{0, 2}[i%2]
+	n = 10000
+	if i/2 >= 1 {
+		n = o.maxRepeat(variant, maxInput)
+	}
+	return
+}
+
+var famDeepTable = &family{
+	name: "c-deep-table",
+	size: func(q bool) int64 { return int64(len(deepOpeners) * 2 * 2) },
+	bound: func(q bool) string {
+		return "n-fold nesting of ( and [, n in {10^4, max fitting 64 KiB}, unterminated and balanced, on a generic parser with 28 priority levels"
+	},
+	eval: func(r *runner, i int64) {
+		o, variant, n := decodeDeep(i)
+		for _, in := range r.deep {
+			r.exec("c-deep-table", i, 0, in, o.build(variant, n), o.describe(variant, n))
 		}
 	},
 }
